@@ -8,9 +8,10 @@ Clauses
   C08.value        the value written by / returned from a statement with a bound parameter is the Python value
                    (positions that hand the value back: select list, repeated key, INSERT, UPDATE, next to a session
                    variable, next to comments / string literals holding placeholder text, two adjacent parameters)
-  C08.equiv        the statement with a bound parameter selects / deletes exactly the rows the model says, or - where
-                   the model and the literal statement disagree - at least the rows the literal statement does
-                   (WHERE =, IN (p, p), IN (list), LIKE next to a literal %%, LIKE subject, DELETE WHERE)
+  C08.equiv        the statement with a bound parameter selects / deletes exactly the rows that SQL semantics give for
+                   that value over ground-truth data (the rows the statement with a correctly quoted literal must
+                   select): WHERE =, IN (p, p), IN (list), LIKE next to a literal %%, LIKE subject, DELETE WHERE.
+                   Referee before reporting: the same statement with the value delivered as column data.
   C08.structure    no value changes the structure: the result has the width/row count of the benign case and no
                    object other than the statement's target changes (ground truth: raw DuckDB catalog + data)
   C08.executemany  executemany over 0/1/3 parameter sets leaves exactly the rows the sets describe, and the same
@@ -28,11 +29,16 @@ Not demanded (ambiguous or outside the statement)
     (cast in the select list, column of the value's type);
   * int vs Decimal for integral NUMBER results, the sign of a float zero, the UTC offset (as opposed to the instant)
     of a TIMESTAMP_TZ, cursor.rowcount and cursor.description (subjects of C01/C04/C06);
+  * DDL / COMMENT statements with parameters: COMMENT ON TABLE t IS 'it''s' fails in fakesnow for the literal
+    statement exactly as for the bound one (the comment is re-quoted by hand when it is recorded), which makes it a
+    metadata defect (C09), not a binding defect; server-side binds in DDL are undocumented;
   * rowcount / result of executemany (the connector batches INSERTs and reports the total, fakesnow the last);
-  * a deviation shared by the bound and the literal statement at a *matching* position (=, IN, LIKE): that is the
-    operator's or the literal parser's behaviour, not the binding; it is counted in evidence
-    (`shared_deviation_from_model`) and not reported.  A literal statement that alone deviates is likewise only
-    counted (`literal_path_deviation`; C01/C15 territory).
+  * a deviation from the model at a *matching* position (=, IN, LIKE) that the same statement shows when the value is
+    delivered as column data (scalar subquery on a raw-loaded table, no quoting involved): that is the operator's
+    behaviour (or the model's error), not the binding; it is counted in evidence (`shared_deviation_from_model`) and
+    not reported.  A literal statement (independent renderer) that deviates while the bound one is right is only
+    counted (`literal_path_deviation`: fakesnow inlines $name inside string constants and has no NUL escape -
+    C15/C01 territory); the literal execution is evidence in every counterexample, not the judge.
 """
 from __future__ import annotations
 
@@ -157,6 +163,27 @@ class Literal:
     pct = "%"
 
     def ph(self, v, name="v"):
+        return L.render(v)
+
+    def params(self):
+        return None
+
+
+class Column:
+    """Same interface; the value under test is delivered as data that never was statement text: a scalar subquery on
+    the one-row table pv (loaded through raw DuckDB).  Referee for the matching positions: what the operator does
+    with this value when no quoting is involved at all.  Other (benign) values are written as constants."""
+
+    pct = "%"
+
+    def __init__(self, v):
+        self.v = v
+
+    def ph(self, v, name="v"):
+        if name == "v":
+            if isinstance(v, list):
+                return "(select v from pv), " + L.render(v[1:])
+            return "(select v from pv)"
         return L.render(v)
 
     def params(self):
@@ -375,7 +402,8 @@ def vclass(fam, v):
 def case_class(style, pos, fam, v):
     if pos == "sessvar_pct" and bind_kind(style) == "client":
         # the shape that matters here is the statement (a variable whose value holds a percent sign), not the value
-        return f"pos={pos},bind=client,val=any"
+        # (NUL keeps its own class: it fails under client-side binding for a reason of its own)
+        return f"pos={pos},bind=client,val={'str:nul' if vclass(fam, v) == 'str:nul' else 'any'}"
     return f"pos={pos},bind={bind_kind(style)},val={vclass(fam, v)}"
 
 
@@ -412,6 +440,7 @@ class Env:
             "create table keep (id int)",
             f"create table fx (id int, v {F.sqltype})",
             f"create table tg (id int, v {F.sqltype})",
+            f"create table pv (v {F.sqltype})",
         ]
         if pair:
             ddl.append("create table tp (a varchar, b varchar)")
@@ -433,9 +462,10 @@ class Env:
         self.raw.execute(f"delete from db1.s1.{table}")
         for r in rows:
             if self.F.name == "int" and table != "tp":
-                self.raw.execute(f"insert into db1.s1.{table} values ({r[0]}, {'NULL' if r[1] is None else int(r[1])})")
+                txt = ", ".join("NULL" if x is None else str(int(x)) for x in r)
+                self.raw.execute(f"insert into db1.s1.{table} values ({txt})")
             else:
-                self.raw.execute(f"insert into db1.s1.{table} values (?, ?)", list(r))
+                self.raw.execute(f"insert into db1.s1.{table} values ({', '.join('?' * len(r))})", list(r))
 
     def read(self, table="tg"):
         order = "a, b" if table == "tp" else "id"
@@ -545,16 +575,26 @@ def run_case(env, style, pos, fam, vi, acc, replay):
         "expected_rows": rows, "expected_target": tg1, "bound": show(obs_b), "mode": mode,
         "literal_sql": sql_l, "literal": show(obs_l), "literal_matches_model": lv_ok,
     }  # fmt: skip
-    same_as_literal = repr(obs_b) == repr(obs_l)
     if kind == "value":
         failed = not v_ok
         clause = "C08.value"
     else:
-        failed = (not v_ok) and not same_as_literal
+        failed = not v_ok
         clause = "C08.equiv"
-        if not v_ok and same_as_literal:
-            acc.count("shared_deviation_from_model")
-            acc.note(f"shared deviation from the model at {cls} (not reported: bound == literal)")
+        if failed:
+            # referee: the same statement with the value delivered as column data (no quoting involved).  If that
+            # deviates from the model in exactly the same way, the operator (or the model) is at odds, not the binding.
+            env.load("pv", [(v,)])
+            sql_c = builder(Column(v), F, v)
+            obs_c = observe_stmt(env, sql_c, None, tg0)
+            acc.count("statements_executed")
+            acc.obs(repr(obs_c))
+            detail["column_delivered_sql"] = sql_c
+            detail["column_delivered"] = show(obs_c)
+            if repr(obs_c) == repr(obs_b):
+                failed = False
+                acc.count("shared_deviation_from_model")
+                acc.note(f"deviation from the model shared with column-delivered data at {cls} (not reported)")
     if v_ok and not lv_ok:
         acc.count("literal_path_deviation")
     acc.member(clause, cls, failed)
@@ -563,7 +603,7 @@ def run_case(env, style, pos, fam, vi, acc, replay):
     acc.member("C08.structure", cls, not s_ok)
     if not s_ok:
         acc.violation("C08.structure", cls, detail, replay)
-    return failed or not s_ok or not lv_ok
+    return (not v_ok) or not s_ok or not lv_ok
 
 
 # ---- work items --------------------------------------------------------------------------------------------------------------
